@@ -71,6 +71,15 @@ func ZZ_C12_extract() {
 	}
 	small := nc <= maxn
 	maxh := maxn + 1
+	if on := vParam("onlyn", 0); on > 0 {
+		// targeted variant: one declared count, few hashes
+		if nc != 0 {
+			return
+		}
+		numTx = uint32(on)
+		small = true
+		maxh = vParam("maxhashes", 2)
+	}
 	if !small {
 		maxh = vParam("bigcounthashes", 1)
 	}
